@@ -148,10 +148,120 @@ func exportInto(sel *node.Selection, s *tree.SNode, insert bool) (got *tree.Cont
 	return
 }
 
+// c04World: the export and round-trip cases of one (schema, data) pair.  allContainers: export at
+// every container and list entry found (schemas made of groupings: each place a grouping is used
+// at), in generated order, instead of at one of each kind.
+func c04World(ctx *core.Ctx, dr *gen.Rng, w *jWorld, data *tree.Cont, label string, allContainers bool, nRound int, probe bool) error {
+	rootTerm := w.root.Term()
+	dataTerm := emit.App("DCont", data.ContentTerm(w.root))
+
+	// ---- export into another node
+	b := node.NewBrowser(w.m, data.Node(w.root, nil, ""))
+	starts := []jStart{{kind: "root", sel: b.Root(), s: w.root, cont: data, size: data.Size()}}
+	var others []jStart
+	if err := collectStarts(&others, b.Root(), w.root, data, "", true, 0); err != nil {
+		return err
+	}
+	for _, k := range []string{"container", "row"} {
+		var l []jStart
+		for _, o := range others {
+			if o.kind == k {
+				l = append(l, o)
+			}
+		}
+		if allContainers {
+			for len(l) > 5 {
+				i := dr.Intn(len(l))
+				l = append(l[:i], l[i+1:]...)
+			}
+			starts = append(starts, l...)
+		} else if len(l) > 0 {
+			starts = append(starts, gen.Pick(dr, l))
+		}
+	}
+	if allContainers {
+		// the order of the reads is part of the input (anything the library remembers between reads shows)
+		for i := len(starts) - 1; i > 0; i-- {
+			j := dr.Intn(i + 1)
+			starts[i], starts[j] = starts[j], starts[i]
+		}
+	}
+	for _, st := range starts {
+		insert := dr.Bool()
+		got, eerr, panicked := exportInto(st.sel, st.s, insert)
+		o, odesc := obsTerm(got, st.s, eerr, panicked)
+		sterm := st.s.Term()
+		if st.kind == "row" {
+			sterm = emit.App("row_of", sterm)
+		}
+		term := emit.App("CExport", sterm, emit.App("DCont", st.cont.ContentTerm(st.s)), o)
+		call := "UpsertInto"
+		if insert {
+			call = "InsertInto"
+		}
+		ctx.Add(term, map[string]interface{}{"yang": w.yang, "what": "export", "world": label, "start": st.kind, "path": st.path, "call": call,
+			"data": st.cont.Desc(st.s), "observed": odesc}, st.cont.Size() > 0)
+		ctx.Count("export:" + st.kind)
+		ctx.Count("export-world:" + label)
+	}
+
+	// ---- JSON round trip at the root
+	for _, cfg := range []jCfg{gen.Pick(dr, allCfgs[:4]), gen.Pick(dr, allCfgs[4:])}[:nRound] {
+		text, got, rerr, panicked := roundTrip(w, data, cfg)
+		var doc interface{}
+		dec := json.NewDecoder(strings.NewReader(string(text)))
+		dec.UseNumber()
+		if derr := dec.Decode(&doc); derr != nil {
+			return fmt.Errorf("c04: the writer's output does not decode: %v\n%s", derr, text)
+		}
+		o, odesc := obsTerm(got, w.root, rerr, panicked)
+		term := emit.App("CRound", cfg.term(), rootTerm, dataTerm, rjTerm(doc), o)
+		ctx.Add(term, map[string]interface{}{"yang": w.yang, "what": "json round trip", "world": label, "config": cfg.String(),
+			"data": data.Desc(w.root), "json": quoteBytes(text), "observed": odesc}, data.Size() > 0)
+		ctx.Count("roundtrip:" + cfg.String())
+		if rerr != nil {
+			ctx.Count("roundtrip-result:error")
+		} else if panicked != "" {
+			ctx.Count("roundtrip-result:panic")
+		} else {
+			ctx.Count("roundtrip-result:ok")
+		}
+		if probe && (rerr != nil || panicked != "") {
+			fmt.Fprintf(os.Stderr, "---- %s %v %s\n%s\n", label, rerr, panicked, quoteBytes(text))
+		}
+	}
+	return nil
+}
+
+// unsetLeaves: how many leaves with a schema default the data leaves unset below containers and list
+// entries that exist (the places where an export reports a default)
+func unsetDefaults(s *tree.SNode, c *tree.Cont, below bool) int {
+	n := 0
+	for _, kid := range s.Kids {
+		switch kid.Kind {
+		case tree.KLeaf:
+			if _, set := c.Leaves[kid.Name]; !set && below && kid.Leafable().HasDefault() {
+				n++
+			}
+		case tree.KCont:
+			if sub, ok := c.Conts[kid.Name]; ok {
+				n += unsetDefaults(kid, sub, true)
+			}
+		case tree.KList:
+			if l, ok := c.Lists[kid.Name]; ok {
+				for _, row := range l.Rows {
+					n += unsetDefaults(kid, row, true)
+				}
+			}
+		}
+	}
+	return n
+}
+
 // C04: export and JSON round trip reproduce exactly the data present.
 func C04(ctx *core.Ctx) error {
-	ctx.Imports = "Val.Model Tree.Schema Tree.Editor Tree.Export Tree.JsonExp Tree.JsonR Check.C04Check"
-	ctx.Rule = "tree = generated schema (module m importing mt: containers, lists with 1-2 keys, choices nested in cases, leaf-lists, defaults, 22 leaf types incl. empty, bits, identityref across modules, binary, union, int64/uint64 extremes) x conforming data (valid UTF-8 strings covering every escaper branch; unions holding numeric strings); export: Selection.UpsertInto/InsertInto a fresh reference store at the root, a container or a list entry; round trip: real JSON writer (8 configurations) -> nodeutil.ReadJSON -> UpsertFrom into a fresh reference store; distinct by SHA-256 of the case term; non-trivial = the tree holds data"
+	ctx.Imports = "Val.Model Tree.Schema Tree.Editor Tree.Export Tree.JsonExp Tree.JsonR Tree.JsonW Tree.JsonSession Check.C04Check"
+	ctx.Rule = "tree = generated schema (module m importing mt: containers, lists with 1-2 keys, choices nested in cases, leaf-lists, defaults, 22 leaf types incl. empty, bits, identityref across modules, binary, union, int64/uint64 extremes; and schemas made of typedefs with defaults and groupings - leaves, leaf-lists with several defaults, containers, lists, choices, nested uses - each used at 2-6 places with and without refine of the defaults at every depth) x conforming data (valid UTF-8 strings covering every escaper branch; unions holding numeric strings); export: Selection.UpsertInto/InsertInto a fresh reference store at the root, a container or a list entry (grouping schemas: at every place a grouping is used, in generated order); round trip: real JSON writer (8 configurations) -> nodeutil.ReadJSON -> UpsertFrom into a fresh reference store; session: ONE JSONWtr value (literal or NewJSONWtr) through a generated history of 4-9 operations (Out pointed at one of 2-3 streams, configuration fields changed, InsertInto/UpsertInto(wtr.Node()) of root/container/list/entry/leaf selections, wtr.JSON(sel)), streams accepting any number of bytes or failing at a generated position, one document beyond the 4096-byte buffer; distinct by SHA-256 of the case term; non-trivial = the tree holds data (session: at least two exports)"
 	ctx.ShardMax = 150000
 	r := gen.New(ctx.Seed)
 	probe := os.Getenv("C04_PROBE") != ""
@@ -166,69 +276,52 @@ func C04(ctx *core.Ctx) error {
 		if n%11 == 10 {
 			data = tree.NewCont()
 		}
-		rootTerm := w.root.Term()
-		dataTerm := emit.App("DCont", data.ContentTerm(w.root))
-
-		// ---- export into another node
-		b := node.NewBrowser(w.m, data.Node(w.root, nil, ""))
-		starts := []jStart{{kind: "root", sel: b.Root(), s: w.root, cont: data, size: data.Size()}}
-		var others []jStart
-		if err := collectStarts(&others, b.Root(), w.root, data, "", true, 0); err != nil {
+		if err := c04World(ctx, dr, w, data, "generated", false, 2, probe); err != nil {
 			return err
 		}
-		for _, k := range []string{"container", "row"} {
-			var l []jStart
-			for _, o := range others {
-				if o.kind == k {
-					l = append(l, o)
-				}
-			}
-			if len(l) > 0 {
-				starts = append(starts, gen.Pick(dr, l))
-			}
-		}
-		for _, st := range starts {
-			insert := dr.Bool()
-			got, eerr, panicked := exportInto(st.sel, st.s, insert)
-			o, odesc := obsTerm(got, st.s, eerr, panicked)
-			sterm := st.s.Term()
-			if st.kind == "row" {
-				sterm = emit.App("row_of", sterm)
-			}
-			term := emit.App("CExport", sterm, emit.App("DCont", st.cont.ContentTerm(st.s)), o)
-			call := "UpsertInto"
-			if insert {
-				call = "InsertInto"
-			}
-			ctx.Add(term, map[string]interface{}{"yang": w.yang, "what": "export", "start": st.kind, "path": st.path, "call": call,
-				"data": st.cont.Desc(st.s), "observed": odesc}, st.cont.Size() > 0)
-			ctx.Count("export:" + st.kind)
-		}
+	}
 
-		// ---- JSON round trip at the root
-		for _, cfg := range []jCfg{gen.Pick(dr, allCfgs[:4]), gen.Pick(dr, allCfgs[4:])} {
-			text, got, rerr, panicked := roundTrip(w, data, cfg)
-			var doc interface{}
-			dec := json.NewDecoder(strings.NewReader(string(text)))
-			dec.UseNumber()
-			if derr := dec.Decode(&doc); derr != nil {
-				return fmt.Errorf("c04: the writer's output does not decode: %v\n%s", derr, text)
-			}
-			o, odesc := obsTerm(got, w.root, rerr, panicked)
-			term := emit.App("CRound", cfg.term(), rootTerm, dataTerm, rjTerm(doc), o)
-			ctx.Add(term, map[string]interface{}{"yang": w.yang, "what": "json round trip", "config": cfg.String(),
-				"data": data.Desc(w.root), "json": quoteBytes(text), "observed": odesc}, data.Size() > 0)
-			ctx.Count("roundtrip:" + cfg.String())
-			if rerr != nil {
-				ctx.Count("roundtrip-result:error")
-			} else if panicked != "" {
-				ctx.Count("roundtrip-result:panic")
-			} else {
-				ctx.Count("roundtrip-result:ok")
-			}
-			if probe && (rerr != nil || panicked != "") {
-				fmt.Fprintf(os.Stderr, "---- %d %v %s\n%s\n", n, rerr, panicked, quoteBytes(text))
-			}
+	// ---- schemas made of groupings used several times (copies of a leaf share compiled objects, every
+	// copy has its own default)
+	for n := 0; n < ctx.Scale(14, 160); n++ {
+		ur := r.Fork(uint64(200000 + n))
+		w, err := genUsesWorld(ur)
+		if err != nil {
+			return err
+		}
+		dr := ur.Fork(1)
+		data := jsonGenData(ctx, dr, w, w.root, 45+dr.Intn(50), 2, true)
+		unsetDefaulted(dr, w.root, data, 30+dr.Intn(60))
+		ctx.Hist["uses-unset-leaves-with-default"] += unsetDefaults(w.root, data, false)
+		if err := c04World(ctx, dr, w, data, "groupings", true, 1, probe); err != nil {
+			return err
+		}
+	}
+
+	// ---- one writer value, several exports
+	for n := 0; n < ctx.Scale(18, 200); n++ {
+		sr := r.Fork(uint64(300000 + n))
+		var w *jWorld
+		var err error
+		label := "generated"
+		if n%4 == 3 {
+			label = "groupings"
+			w, err = genUsesWorld(sr.Fork(1))
+		} else {
+			w, err = genJSONWorld(sr.Fork(1), tree.GenOpts{MaxDepth: 2, MaxKids: 3, Lists: true, Defaults: true, LeafLists: true, Choices: n%2 == 0})
+		}
+		if err != nil {
+			return err
+		}
+		dr := sr.Fork(2)
+		data := jsonGenData(ctx, dr, w, w.root, 40+dr.Intn(40), 2, true)
+		if err := c04Session(ctx, dr, w, data, 4+dr.Intn(6), label); err != nil {
+			return err
+		}
+	}
+	for n := 0; n < ctx.Scale(1, 3); n++ {
+		if err := c04BigSession(ctx, r.Fork(uint64(400000+n))); err != nil {
+			return err
 		}
 	}
 	return nil
